@@ -47,7 +47,8 @@ def h_run(m, ctx, depth, cwd_kind, shell_cmd=b'', ncont=1, exit_code=None, mode=
     env.add_file(b'/bin/sh', b'')
     env.add_file(b'/usr/bin/bash', b'')
     rec_box = []
-    code = exit_code if exit_code is not None else (1 if ctx.choose(2, 'exit') == 1 else 0)
+    # exit status: 0, non-zero code, or killed by a signal (ExitStatus::code() == None, success() == false)
+    code = exit_code if exit_code is not None else [0, 1, None][ctx.choose(3, 'exit')]
     outb = ctx.fresh_bytes('o', 2, [111, 10])
 
     def proc(it_, rec):
@@ -107,7 +108,7 @@ def h_run(m, ctx, depth, cwd_kind, shell_cmd=b'', ncont=1, exit_code=None, mode=
         violation(ctx, 'TXTPP_FILE=%r does not designate the source %r' % (bytes(tf), src), data)
     ok_ = (r.idx == 0)
     if (code == 0) != ok_:
-        violation(ctx, 'exit status %d but the build %s' % (code, 'succeeded' if ok_ else 'failed'), data)
+        violation(ctx, 'exit status %s but the build %s' % ('killed by signal' if code is None else code, 'succeeded' if ok_ else 'failed'), data)
     ctx.cover('run_depth%d_%s' % (depth, cwd_kind))
     if ok_:
         out = env.read_file(srcdir + b'/a.txt')
@@ -270,6 +271,13 @@ def replay(native, v):
             want = b'x' if d['no_trailing_newline'] else b'x\n'
             bad = (r.returncode != 0 or out != want)
         return bad, detail
+    if v['msg'].startswith('exit status'):
+        root = tempfile.mkdtemp(prefix='replay-exit-', dir=build.scratch_dir())
+        cmd = {0: 'true', 1: 'exit 3', None: 'echo partial; kill -9 $$'}[d['exit']]
+        open(os.path.join(root, 'a.txt.txtpp'), 'w').write('-TXTPP#run %s\n' % cmd)
+        r = subprocess.run([ppreplay.cli_path(), '-q', 'a.txt.txtpp'], cwd=root, capture_output=True)
+        shutil.rmtree(root, ignore_errors=True)
+        return ((r.returncode == 0) != (d['exit'] == 0)), {'command': cmd, 'txtpp exit code': r.returncode}
     if 'joined by single spaces' in v['msg']:
         # observe the exact command string with a recording shell
         root = tempfile.mkdtemp(prefix='replay-cmd-', dir=build.scratch_dir())
